@@ -216,6 +216,37 @@ func init() {
 		"sort.Slice": func(e *Exec, st *State, call *ast.CallExpr, recv Term, args []Term) []Term {
 			return sortModel(e, st, call, call.Args[0])
 		},
+		"encoding/json.Marshal": func(e *Exec, st *State, call *ast.CallExpr, recv Term, args []Term) []Term {
+			// argument evaluated without interface boxing: the encoding is a function of the value
+			v := e.eval(st, call.Args[0])
+			b := e.jsonOf(v)
+			err := e.Ctx.Fresh("jsonerr", SInt)
+			e.Ctx.Assume(st.PC, Ge(err, Int(0)))
+			e.Ctx.Assume(st.PC, Ge(app(SInt, "bytes_len", b), Int(0)))
+			return []Term{b, err}
+		},
+		"encoding/json.Unmarshal": func(e *Exec, st *State, call *ast.CallExpr, recv Term, args []Term) []Term {
+			// json.Unmarshal(data, &x): on success x is any value whose encoding is data (decode is a left
+			// inverse of encode); on failure x is unspecified
+			data := e.eval(st, call.Args[0])
+			err := e.Ctx.Fresh("jsonerr", SInt)
+			e.Ctx.Assume(st.PC, Ge(err, Int(0)))
+			u, ok := call.Args[1].(*ast.UnaryExpr)
+			if !ok || u.Op.String() != "&" {
+				e.unsupported(call.Pos(), "json.Unmarshal target must be &x")
+				return []Term{err}
+			}
+			loc := e.lvalOf(st, u.X)
+			old := loc.get(st)
+			nv := e.Ctx.Fresh("decoded", old.Sort)
+			name := "json_" + mangle(old.Sort)
+			e.S.needBytes()
+			e.Ctx.DeclareFun(name, []string{old.Sort}, SBytes)
+			e.Ctx.Assume(st.PC, Implies(Eq(err, Int(0)), Term{fmt.Sprintf("(forall ((w %s)) (! (=> (= %s (%s w)) (= %s w)) :pattern ((%s w))))", old.Sort, data.S, name, nv.S, name), SBool}))
+			e.Assumed["encoding/json: Unmarshal(Marshal(v)) restores v for the struct types used (assumed contract on the dependency)"] = true
+			loc.set(st, nv)
+			return []Term{err}
+		},
 		"sort.Sort": func(e *Exec, st *State, call *ast.CallExpr, recv Term, args []Term) []Term {
 			// sort.Sort(T(x)) where T is a slice type implementing sort.Interface: x becomes a rearrangement of
 			// itself (the order established is that of T.Less and is not interpreted here)
